@@ -46,6 +46,8 @@ Definition ccase_attrib (c : ccase) : list nat :=
   match observe (ps_run sdev_off true (cc_fuel c) (cc_prog c)) with
   | ObsAnomaly 1 => [300%nat]      (* D300: dynamic-scope capture *)
   | ObsAnomaly 2 => [301%nat]      (* D301: private copy of an unassigned captured variable *)
+  | ObsAnomaly 4 => [302%nat]      (* D302: a declared-global name that only the builtins define *)
+  | ObsAnomaly 5 => [303%nat]      (* D303: an unassigned plain local named like a builtin reads the builtin *)
   (* code 3 (var_names differ from the free variables on a visible name; mostly the harmless extra capture of an
      enclosing variable named like a parameter of a nested function) is not attributed to any finding *)
   | _ => []
